@@ -201,11 +201,22 @@ func cmdCheck(args []string) int {
 	backends := map[string]int{}
 	replayDir := filepath.Join(*verifDir, "out", "replays", cfg.ID)
 	_ = os.RemoveAll(replayDir)
+	seenErr := map[string]bool{}
 	for _, r := range reports {
 		for _, er := range r.Errors {
-			toolErrs = append(toolErrs, r.Func+": "+er)
+			if k := r.Func + ": " + er; !seenErr[k] {
+				seenErr[k] = true
+				toolErrs = append(toolErrs, k)
+			}
 		}
 	}
+	observe := map[string]string{}
+	for _, r := range reports {
+		for suf, txt := range r.Observe {
+			observe[r.Func+"#"+suf] = txt
+		}
+	}
+	var observations []string
 	for _, o := range all {
 		solverTime += o.Seconds
 		or := obReport{Name: o.Name, Kind: o.Kind, Func: o.Func, Pos: o.Pos, Text: o.Text, Expect: o.Expect, Result: o.Result, Backend: o.Backend,
@@ -236,6 +247,13 @@ func cmdCheck(args []string) int {
 		if o.Result == "error" {
 			or.Status = "solver-error"
 			toolErrs = append(toolErrs, fmt.Sprintf("%s: every solver rejected the query: %s", o.Name, truncate(o.Raw, 200)))
+			obReps = append(obReps, or)
+			continue
+		}
+		if txt, ok := observe[o.Name]; ok {
+			// declared in the contract file as outside the property: reported, never an alarm
+			or.Status = "observation"
+			observations = append(observations, fmt.Sprintf("OBSERVATION (outside property %s): %s [%s: %s]", cfg.ID, txt, o.Name, o.Result))
 			obReps = append(obReps, or)
 			continue
 		}
@@ -285,6 +303,9 @@ func cmdCheck(args []string) int {
 	for _, k := range knownHits {
 		fmt.Println(k)
 	}
+	for _, k := range observations {
+		fmt.Println(k)
+	}
 	for _, te := range toolErrs {
 		fmt.Println("TOOL-ERROR", te)
 	}
@@ -295,7 +316,7 @@ func cmdCheck(args []string) int {
 	fmt.Printf("property %s: %d/%d obligations discharged, %d/%d vacuity guards reachable, %d known-finding obligations, %d violations, %.1fs (solver %.1fs)\n",
 		cfg.ID, nDischarged, nProof, nVacOK, nVac, len(knownHits), len(violations), wall, solverTime)
 	if !*noEvidence && *only == "" {
-		writeEvidence(*verifDir, &cfg, *tier, seed, reports, obReps, nProof, nDischarged, nVac, nVacOK, knownHits, violations, toolErrs, wall, solverTime, backends, to)
+		writeEvidence(*verifDir, &cfg, *tier, seed, reports, obReps, nProof, nDischarged, nVac, nVacOK, append(knownHits, observations...), violations, toolErrs, wall, solverTime, backends, to)
 	}
 	if len(violations) > 0 {
 		return 1
